@@ -119,9 +119,9 @@ def walk (already : List Nat) :
 /-- L888-890: `sampled_cvr_indices.sort(key=lambda i: cvr_list[i].sample_num)` — the keys are computed
 first (`IndexError` for a carried-over index outside the list), then a stable sort -/
 def sortBySampleNum (cards : List Card) (l : List Nat) : Except Err (List Nat) :=
-  match l.mapM (fun i => cards[i]?.map (fun cd => (cd, i))) with
-  | none => .error .IndexError
-  | some ps => .ok ((ps.mergeSort numLE).map (·.2))
+  if l.all (fun i => decide (i < cards.length)) then
+    .ok (((l.filterMap (fun i => cards[i]?.map (fun cd => (cd, i)))).mergeSort numLE).map (·.2))
+  else .error .IndexError
 
 /-- L830-893.  `prev = none` is `sampled_cvr_indices=None` (draw from scratch), `some l` continues from
 the previously selected `l`.  Returns the index list, the contests (thresholds updated) and, for every
